@@ -328,6 +328,15 @@ fn main() {
                         break;
                     }
                     let mut rng = Rng::new(seed.wrapping_mul(3_000_017).wrapping_add(i as u64));
+                    if i == 0 {
+                        if let Some(why) = parseq::macro_cases() {
+                            let text = format!("# property=C16\n# found-by=bounded search of the real crate (fixed trees written with par! / seq!)\n# failure: {}\nmacro-cases\n", why.replace('\n', " "));
+                            std::fs::write(&out, text).expect("cannot write the replay file");
+                            println!("FAIL {}", why.replace('\n', " "));
+                            println!("explored={} skipped=0", explored);
+                            std::process::exit(1);
+                        }
+                    }
                     let tree = parseq::generate(&mut rng);
                     mark(&out, &tree.to_text());
                     match catch_unwind(AssertUnwindSafe(|| parseq::run(&tree))) {
@@ -345,7 +354,15 @@ fn main() {
                                 samples.push(t.trim_end().replace('\n', " | "));
                             }
                         }
-                        Err(_) => {}
+                        Err(p) => {
+                            // the leaves borrow nothing and never panic themselves; rejected par children are caught where they are added
+                            let why = format!("building / setting up / dispatching the tree panicked: {}", real::panic_msg(p));
+                            let text = format!("# property=C16\n# found-by=bounded search of the real crate (par/seq trees; seed {}, case {})\n# failure: {}\n{}", seed, i, why.replace('\n', " "), tree.to_text());
+                            std::fs::write(&out, text).expect("cannot write the replay file");
+                            println!("FAIL {}", why.replace('\n', " "));
+                            println!("explored={} skipped=0", explored);
+                            std::process::exit(1);
+                        }
                     }
                 }
                 println!("explored={} skipped=0 distinct_nontrivial={} first-skip-reason=", explored, seen.len());
@@ -399,6 +416,15 @@ fn main() {
                     break;
                 }
                 let mut rng = Rng::new(seed.wrapping_mul(1_000_003).wrapping_add(i as u64));
+                if prop == "C13" && i == 0 {
+                    if let Ok(Some(why)) = catch_unwind(AssertUnwindSafe(parseq::thread_local_setup)) {
+                        let text = format!("# property=C13\n# found-by=bounded search of the real crate (a par/seq tree as thread-local system)\n# failure: {}\nparseq-thread-local\n", why.replace('\n', " "));
+                        std::fs::write(&out, text).expect("cannot write the replay file");
+                        println!("FAIL {}", why.replace('\n', " "));
+                        println!("explored={} skipped={}", explored, skipped);
+                        std::process::exit(1);
+                    }
+                }
                 if prop == "C13" && i % 8 == 7 {
                     let mut sh = shape_for(&prop, i);
                     sh.p_nest = 0;
@@ -529,6 +555,30 @@ fn main() {
                     Err(e) => {
                         println!("ERROR cannot parse {}: {}", file, e);
                         std::process::exit(2);
+                    }
+                }
+            }
+            if prop == "C16" && text.lines().any(|l| l.trim() == "macro-cases") {
+                match parseq::macro_cases() {
+                    Some(w) => {
+                        println!("FAIL {}", w);
+                        std::process::exit(1);
+                    }
+                    None => {
+                        println!("HOLDS");
+                        std::process::exit(0);
+                    }
+                }
+            }
+            if prop == "C13" && text.lines().any(|l| l.trim() == "parseq-thread-local") {
+                match parseq::thread_local_setup() {
+                    Some(w) => {
+                        println!("FAIL {}", w);
+                        std::process::exit(1);
+                    }
+                    None => {
+                        println!("HOLDS");
+                        std::process::exit(0);
                     }
                 }
             }
